@@ -81,6 +81,10 @@ def run(tier, seed):
                                     # `closest` evaluates every ancestor with the call target as scope
                                     expc = next((a for a in chain if c.match(a)), None)
                                     facts.append(('closest = nearest matching ancestor-or-self', cl is expc))
+                                names = sorted({a.name for a in [tgt] + list(tgt.parents) if not isinstance(a, bs4.BeautifulSoup)})
+                                nobody = ':not(' + ', '.join('*|' + sv.escape(nm) for nm in names) + ')'
+                                facts.append(('closest with a selector no ancestor-or-self element matches is None (' + nobody + ')',
+                                              sv.closest(nobody, tgt) is None))
                                 facts.append((':scope is the call target', sv.match(':scope', tgt) and sv.select(':scope', tgt) == [] and
                                               sv.closest(':scope', tgt) is tgt and sv.match('&', tgt)))
                                 facts.append((':scope denotes only the call target (not an equal-looking sibling)',
@@ -89,6 +93,9 @@ def run(tier, seed):
                                 ch = [k_ for k_ in tgt.contents if isinstance(k_, bs4.Tag)]
                                 facts.append((':scope > * selects the element children', ids(sv.select(':scope > *', tgt)) == ids(ch)))
                             else:
+                                facts.append(('closest on the document object is None (the document is not an element)',
+                                              c.closest(tgt) is None and sv.closest('*|*', tgt) is None and sv.closest(':not(a)', tgt) is None))
+                                facts.append(('match on the document object is False', c.match(tgt) is False and sv.match('*|*', tgt) is False))
                                 root = next((k_ for k_ in tgt.contents if isinstance(k_, bs4.Tag)), None)
                                 if root is not None:
                                     facts.append((':scope is the root element when called on the document',
